@@ -226,10 +226,22 @@ def m_namespace_name(st):
     st.add("namespace-name-%s" % nm.lower(), ok)
 
 
+UNICODE_NAMES = ["Gr\u00f6sse", "m\u00e9t\u00e9o", "Type\u0663", "Sq\u00b2", "\u212aelvin", "\u0416uk", "na\u00efve", "A\u0301b", "\uff21bc", "x\u2160"]
+
+
 def m_name_syntax(st):
     rng = st.rng
-    which = rng.choice(["short-digit", "short-dash", "ns-dash", "ns-digit"])
+    which = rng.choice(["short-digit", "short-dash", "ns-dash", "ns-digit", "short-unicode", "ns-unicode", "short-unicode", "ns-unicode"])
     if which.startswith("short") and not st.claim("short"):
+        return
+    if which == "short-unicode":
+        st.short = rng.choice(UNICODE_NAMES)
+        st.add("name-syntax-short-unicode-" + ascii(st.short).strip("'"), False)
+        return
+    if which == "ns-unicode":
+        nm = rng.choice(UNICODE_NAMES)
+        st.ns_dirs = st.ns_dirs + [nm]
+        st.add("name-syntax-ns-unicode-" + ascii(nm).strip("'"), False)
         return
     if which == "short-digit":
         st.short = "9Lives"
